@@ -20,6 +20,7 @@ import time
 import common
 import c14_gen as g
 import c14_zoo as zoo
+import c14_derived as der
 
 GEN_FILE = os.path.join(common.COQ, "Generated", "C14_Builtins.v")
 
@@ -309,10 +310,18 @@ def cls_name(classes, c):
   return g.HEADS[c][0] if c < g.NB else classes[c - g.NB]["name"]
 
 
+def opnd(classes, c):
+  """Operand class in a fingerprint: the builtin head, `user`, or `derived(<head>)` for a class deriving from one."""
+  if c < g.NB:
+    return g.HEADS[c][0]
+  root = classes[c - g.NB].get("root")
+  return "user" if root is None else f"derived({g.HEADS[root][0]})"
+
+
 def fingerprint(classes, rec, direction, exc, msg=""):
   st = rec["st"]
   k = st[0]
-  xc = cls_name(classes, st[1]) if st[1] < g.NB else "user"
+  xc = opnd(classes, st[1])
   if k in ("attr", "mcall"):
     own = xc
     if st[1] < g.NB:
@@ -320,22 +329,22 @@ def fingerprint(classes, rec, direction, exc, msg=""):
       own = g.HEADS[o][0] if o is not None else xc
     core = f"{k}:{own}.{st[2]}"
   elif k in ("bin", "ibin"):
-    yc = cls_name(classes, st[3]) if st[3] < g.NB else "user"
+    yc = opnd(classes, st[3])
     sym = g.BINOPS[st[2] // 2][0]
     core = f"{k}:{xc}.{g.FIXED_NAMES[st[2]]}" if direction == "fn" else f"{k}:{xc}:{sym}:{yc}"
   elif k == "cmp":
-    yc = cls_name(classes, st[3]) if st[3] < g.NB else "user"
+    yc = opnd(classes, st[3])
     core = f"cmp:{xc}:{g.CMPOPS[st[2] - g.LT][0]}:{yc}"
   elif k == "in":
-    qc = cls_name(classes, st[2]) if st[2] < g.NB else "user"
+    qc = opnd(classes, st[2])
     core = f"in:{xc}:{qc}"
   elif k == "un":
     core = f"un:{g.UNSYM[st[2]].strip()}:{xc}"
   elif k == "st":
-    yc = cls_name(classes, st[3]) if st[3] < g.NB else "user"
+    yc = opnd(classes, st[3])
     core = f"{'set' if st[2] == g.SETITEM else 'del'}:{xc}" + (f"[{yc}]" if direction == "fn" else "")
   elif k == "sub":
-    yc = cls_name(classes, st[2]) if st[2] < g.NB else "user"
+    yc = opnd(classes, st[2])
     if msg.startswith("unhashable type"):
       yc = "unhashable"
     core = f"sub:{xc}[{yc}]" if direction == "fn" else f"sub:{xc}"
@@ -348,9 +357,10 @@ def module_texts(classes, recs):
   return g.class_source(classes), [g.stmt_text(classes, rc["st"], f"v{j}", rc["variant"]) for j, rc in enumerate(recs)]
 
 
-def run_module(classes, recs, names, idx, res, stats, model_codes, tag, pre, texts, py):
+def run_module(classes, recs, names, idx, res, stats, model_codes, tag, pre, texts, py, c_upper=None):
   """Compares real pytype's and CPython's answers on one module's statements with the models and applies
-  the oracle."""
+  the oracle.  c_upper (C14d, a list): the run-time model is an UPPER bound of CPython's success on these statements
+  (model Err => CPython raises is the obligation; the converse gaps are collected in c_upper, not reported)."""
   cp = g.run_cpython(pre, texts)
   mism_py, mism_c = [], []
   mi = 0
@@ -387,11 +397,13 @@ def run_module(classes, recs, names, idx, res, stats, model_codes, tag, pre, tex
         mk = expected_marker(classes, st, dc, names)
         if mk is not None and tname != mk:
           okc = False
-      if not okc:
+      if not okc and c_upper is not None and dc[0] != "Err" and raised:
+        c_upper.append(dict(stmt=texts[j], model=dc, cpython=[exc, msg[:80]]))
+      elif not okc:
         mism_c.append(dict(stmt=texts[j], model=dc, cpython=[exc, msg[:80], tname]))
     # ---- the oracle, on the implementation's output only (replay input shrunk: the class table is dropped
     # when the statement does not mention a user class)
-    pre_min = pre if any(c["name"] + "()" in texts[j] for c in classes) else ""
+    pre_min = pre if any(c["name"] + "(" in texts[j] for c in classes) else ""
     if flagged and not raised:
       fp = fingerprint(classes, rc, "fp", exc)
       stats["fp"][fp] += 1
@@ -443,6 +455,61 @@ def run_zoo(res, stats, zsts, ztexts, zpy):
 
 
 # ------------------------------------------------------------------------------------------
+# Tuple constants that are ==-equal across numeric types ((1, 0) / (1.0, 0.0) / (True, False), also nested), several in
+# ONE analysed file, in each order: Converter.constant_to_value memoises constants, and Python's == / hash do not
+# separate 1, 1.0 and True.  The verdict on a statement must not depend on which equal-valued literal the file
+# mentioned first; every statement is still judged against its own isolated CPython execution.  Oracle only.
+
+TC_TUPLES = {"int": ["(1, 0)", "(1,)", "((1, 0),)"], "float": ["(1.0, 0.0)", "(1.0,)", "((1.0, 0.0),)"],
+             "bool": ["(True, False)", "(True,)", "((True, False),)"]}
+TC_FORMS = [("bytes", "bytes({t})", 0), ("sub", "[5, 6][({t})[0]]", 0), ("mul", '"ab" * ({t})[0]', 0),
+            ("sub", "[5, 6][({t})[0]]", 1), ("bytes", "bytes({t})", 1), ("nsub", "[5, 6][({t})[0][0]]", 2),
+            ("nbytes", "bytes(({t})[0])", 2)]
+
+
+def tuple_const_modules():
+  """-> [(first kind, preamble, [(form, kind, text)])]: the preamble binds the literals of one kind (no operation, so
+  no error can be reported there); the statement lines then use the literals of every kind."""
+  mods = []
+  for first in ("float", "int", "bool"):
+    pre = "".join(f"p{i}_ = {lit}\n" for i, lit in enumerate(TC_TUPLES[first]))
+    sts = []
+    for kind in ("int", "float", "bool"):
+      for form, tmpl, which in TC_FORMS:
+        j = len(sts)
+        sts.append((form, kind, f"a{j} = {TC_TUPLES[kind][which]}; v{j} = " + tmpl.format(t=f"a{j}")))
+    mods.append((first, pre, sts))
+  return mods
+
+
+def run_tuple_consts(res, stats, mods, pys):
+  n = 0
+  for (first, pre, sts), py in zip(mods, pys):
+    cp = g.run_cpython(pre, [t for _, _, t in sts])
+    for (form, kind, t), (errs, typ), (exc, msg, _) in zip(sts, py, cp):
+      if errs == g.NO_RESULT:
+        stats["no_result"].append(dict(stmt=t, why=typ))
+        continue
+      n += 1
+      flagged, raised = bool(errs), g.is_type_error(exc)
+      stats["kinds"]["tconst:" + form] += 1
+      res.count(("tconst", first, t))
+      if flagged and not raised:
+        fp = f"fp:tconst:{form}:{kind}-tuple-after-{first}:{exc}"
+        stats["fp"][fp] += 1
+        if stats["fp"][fp] == 1 and (fp in res.known or len(res.violations) < 3):
+          res.violation(fp, f"pytype reports {errs} on `{t}` in a file that first mentions the ==-equal {first} "
+                        f"tuple literals; CPython: " + (f"raises {exc}" if exc else "runs cleanly"),
+                        dict(classes=pre, stmt=t, pytype=errs, cpython=exc, kind="fp"))
+      if raised and not flagged and form in ("sub", "mul", "nsub"):
+        fp = f"fn:tconst:{form}:{kind}-tuple-after-{first}"
+        stats["fn"][fp] += 1
+        if stats["fn"][fp] == 1 and (fp in res.known or len(res.violations) < 3):
+          res.violation(fp, f"CPython raises {exc} ({msg[:70]}) on `{t}`; pytype reports nothing in a file that first "
+                        f"mentions the ==-equal {first} tuple literals",
+                        dict(classes=pre, stmt=t, pytype=errs, cpython=exc, kind="fn"))
+  res.extra["tuple_constant_statements_oracle_only"] = n
+
 
 def translator_checks(res, data):
   """Fail-closed cross checks between the two ways the stub side is read."""
@@ -576,8 +643,26 @@ def run(res):
   srcs = [module_texts(cl, rs) for _, cl, rs in modules]
   zsts = zoo.statements()
   ztexts = [zoo.text(s, j) for j, s in enumerate(zsts)]
-  py_all = g.run_pytype_many(srcs + [(zoo.ZOO_SOURCE, ztexts)])
+  # ---- C14d: classes deriving from builtin heads (coq/Ops/Derived.v)
+  try:
+    self_mro = der.probe_self_mro()
+  except g.TranslatorError as e:
+    res.obligation("translator:derived-fail-closed", False, str(e))
+    g.close_pool()
+    return "proof"
+  dmods = der.modules(common.rng(res.seed, "c14d"), res.tier)
+  t2 = time.time()
+  dcodes = der.eval_models([(cl, [rc["st"] for rc in rs]) for _, cl, rs in dmods], idx, self_mro)
+  res.extra["seconds_model_eval_derived"] = round(time.time() - t2, 1)
+  dsrcs = [module_texts(cl, rs) for _, cl, rs in dmods]
+  tcm = tuple_const_modules()
+  py_all = g.run_pytype_many(srcs + dsrcs + [(pre, [t for _, _, t in sts]) for _, pre, sts in tcm] +
+                             [(zoo.ZOO_SOURCE, ztexts)])
   zpy = py_all.pop()
+  tpy = py_all[len(srcs) + len(dsrcs):]
+  py_all = py_all[:len(srcs) + len(dsrcs)]
+  dpy = py_all[len(srcs):]
+  py_all = py_all[:len(srcs)]
   g.close_pool()
   res.extra["seconds_pytype"] = round(time.time() - t1, 1)
   for (tag, cl, rs), mc, (pre, texts), py in zip(modules, codes, srcs, py_all):
@@ -586,6 +671,24 @@ def run(res):
     all_c += b
     n_model += sum(1 for rc in rs if rc["model"])
   run_zoo(res, stats, zsts, ztexts, zpy)
+  run_tuple_consts(res, stats, tcm, tpy)
+  d_py, d_c, d_upper, n_d = [], [], [], 0
+  for (tag, cl, rs), mc, (pre, texts), py in zip(dmods, dcodes, dsrcs, dpy):
+    a, b = run_module(cl, rs, names, idx, res, stats, mc, tag, pre, texts, py, c_upper=d_upper)
+    d_py += a
+    d_c += b
+    n_d += len(rs)
+  res.obligation("correspondence:derived-model-vs-real-pytype", not d_py,
+                 f"{len(d_py)} of {n_d} statements disagree; first: {json.dumps(d_py[:4], default=str)}")
+  res.obligation("correspondence:derived-model-Err-implies-CPython-raises", not d_c,
+                 f"{len(d_c)} of {n_d} statements disagree; first: {json.dumps(d_c[:4], default=str)}")
+  res.extra["derived"] = dict(
+      statements=n_d, modules=len(dmods), heads_found_in_subclass_mro_by_overrides=self_mro,
+      mismatches_pytype=d_py[:20], mismatches_cpython=d_c[:20],
+      runtime_model_is_upper_bound=len(d_upper), runtime_upper_bound_samples=d_upper[:6],
+      note=("run-time side: binop_c on a derived table is an upper bound of CPython's success -- a TypeError RAISED "
+            "by an inherited builtin sequence wrapper (list.__add__, list.__mul__ ...) reached through the slot "
+            "function of a user subclass ends the operation instead of falling through to the reflected dunder"))
   res.obligation("correspondence:model-vs-real-pytype", not all_py,
                  f"{len(all_py)} of {n_model} statements disagree; first: {json.dumps(all_py[:4], default=str)}")
   res.obligation("correspondence:model-vs-CPython", not all_c,
